@@ -93,6 +93,7 @@ type scen struct {
 	cnode    *muxdrv.Validator
 	nobody        *muxdrv.Key
 	vaultAddr     staking.Address
+	vault2Addr    staking.Address // 2-of-2 vault (accounts 6 and 7) with a pending action
 	setupFail     []string
 	opCost        map[transaction.MethodName][]uint64
 	known         map[transaction.MethodName]bool
@@ -232,6 +233,11 @@ func buildScenario(seed uint64, n int) (*scen, error) {
 					return muxdrv.TxTransfer(n, fee(), to, 5000)
 				}))
 			}
+			txs = append(txs, sign(acc[6].Key, func(n uint64) *transaction.Transaction {
+				s.vault2Addr = vault.NewVaultAddress(acc[6].Address, n+1)
+				au := vault.Authority{Addresses: []staking.Address{acc[6].Address, acc[7].Address}, Threshold: 2}
+				return vault.NewCreateTx(n, muxdrv.Fee(uint64(rng.Intn(60)), 4*muxdrv.DefaultGas), &vault.Create{AdminAuthority: au, SuspendAuthority: au})
+			}))
 			for _, id := range []common.Namespace{s.rt1, s.rt2} {
 				txs = append(txs, sign(v[0].Entity, func(n uint64) *transaction.Transaction {
 					return registry.NewRegisterRuntimeTx(n, muxdrv.Fee(uint64(rng.Intn(60)), 4*muxdrv.DefaultGas), s.runtimeDesc(id, v[0].Entity.Public()))
@@ -266,6 +272,17 @@ func buildScenario(seed uint64, n int) (*scen, error) {
 		case 3:
 			txs = append(txs, sign(v[0].Entity, func(n uint64) *transaction.Transaction {
 				return muxdrv.TxCastVote(n, fee(), 1, governance.VoteYes)
+			}))
+			// vault 1: the admin lets account 8 withdraw up to 10^9 per 1000 blocks (the vault holds 5000)
+			txs = append(txs, sign(acc[7].Key, func(n uint64) *transaction.Transaction {
+				return vault.NewAuthorizeActionTx(n, muxdrv.Fee(uint64(rng.Intn(60)), 4*muxdrv.DefaultGas), &vault.AuthorizeAction{Vault: s.vaultAddr, Nonce: 0,
+					Action: vault.Action{UpdateWithdrawPolicy: &vault.ActionUpdateWithdrawPolicy{Address: acc[8].Address,
+						Policy: vault.WithdrawPolicy{LimitAmount: mustQ(1_000_000_000), LimitInterval: 1000}}}})
+			}))
+			// vault 2 (2-of-2): one of the two authorizations of a suspend action -> stays pending
+			txs = append(txs, sign(acc[6].Key, func(n uint64) *transaction.Transaction {
+				return vault.NewAuthorizeActionTx(n, muxdrv.Fee(uint64(rng.Intn(60)), 4*muxdrv.DefaultGas), &vault.AuthorizeAction{Vault: s.vault2Addr, Nonce: 0,
+					Action: vault.Action{Suspend: &vault.ActionSuspend{}}})
 			}))
 		case rtFillH + 1:
 			// a valid executor commitment of the (only) worker: the round finalizes in EndBlock
@@ -904,6 +921,15 @@ func (c *gctx) bal(k *muxdrv.Key) uint64 {
 	return b.Uint64()
 }
 
+func (c *gctx) balAddr(a staking.Address) uint64 {
+	ac, _ := decodeAcct(c.pre, a)
+	b := ac.General.Balance.ToBigInt()
+	if !b.IsUint64() {
+		return math.MaxUint64
+	}
+	return b.Uint64()
+}
+
 func (c *gctx) fee() *transaction.Fee {
 	switch c.rng.Intn(4) {
 	case 0:
@@ -1275,13 +1301,13 @@ func (c *gctx) execFailingPick(roundRobin bool) built {
 		},
 		func() built {
 			return mk("vault/authorize-not-authority", acc[8].Key, func(n uint64, f *transaction.Fee) *transaction.Transaction {
-				return vault.NewAuthorizeActionTx(n, f, &vault.AuthorizeAction{Vault: s.vaultAddr, Nonce: 0, Action: vault.Action{Suspend: &vault.ActionSuspend{}}})
+				return vault.NewAuthorizeActionTx(n, f, &vault.AuthorizeAction{Vault: s.vaultAddr, Nonce: 1, Action: vault.Action{Suspend: &vault.ActionSuspend{}}})
 			})
 		},
 		func() built {
 			return inTx(mk("vault/execute-failing-message", acc[7].Key, func(n uint64, f *transaction.Fee) *transaction.Transaction {
 				body := cbor.Marshal(&staking.Transfer{To: acc[0].Address, Amount: mustQ(1 << 50)})
-				return vault.NewAuthorizeActionTx(n, f, &vault.AuthorizeAction{Vault: s.vaultAddr, Nonce: 0, Action: vault.Action{
+				return vault.NewAuthorizeActionTx(n, f, &vault.AuthorizeAction{Vault: s.vaultAddr, Nonce: 1, Action: vault.Action{
 					ExecuteMessage: &vault.ActionExecuteMessage{Method: staking.MethodTransfer, Body: body}}})
 			}))
 		},
@@ -1292,7 +1318,59 @@ func (c *gctx) execFailingPick(roundRobin bool) built {
 		},
 		func() built {
 			return mk("vault/cancel-nothing", acc[7].Key, func(n uint64, f *transaction.Fee) *transaction.Transaction {
-				return vault.NewCancelActionTx(n, f, &vault.CancelAction{Vault: s.vaultAddr, Nonce: uint64(r.Intn(3))})
+				return vault.NewCancelActionTx(n, f, &vault.CancelAction{Vault: s.vaultAddr, Nonce: 1})
+			})
+		},
+		func() built {
+			// withdrawals FROM the vault by the policy address: the vault's withdraw hook authorizes
+			// (and records the amount against the limit), the transfer fails afterwards
+			vb := c.balAddr(s.vaultAddr)
+			return inTx(mk("vault/withdraw-above-balance", acc[8].Key, func(n uint64, f *transaction.Fee) *transaction.Transaction {
+				return muxdrv.TxWithdraw(n, f, s.vaultAddr, vb+1+uint64(r.Intn(500)))
+			}))
+		},
+		func() built {
+			// (fails only in histories with MinTransactBalance > 0; otherwise a plain success)
+			vb := c.balAddr(s.vaultAddr)
+			amt := vb
+			if vb > 1000 {
+				amt = vb - uint64(1+r.Intn(999))
+			}
+			return inTx(mk("vault/withdraw-leaves-vault-under-min", acc[8].Key, func(n uint64, f *transaction.Fee) *transaction.Transaction {
+				return muxdrv.TxWithdraw(n, f, s.vaultAddr, amt)
+			}))
+		},
+		func() built {
+			return mk("vault/withdraw-over-limit", acc[8].Key, func(n uint64, f *transaction.Fee) *transaction.Transaction {
+				return muxdrv.TxWithdraw(n, f, s.vaultAddr, 1_000_000_001+uint64(r.Intn(500)))
+			})
+		},
+		func() built {
+			return mk("vault/withdraw-no-policy", acc[5].Key, func(n uint64, f *transaction.Fee) *transaction.Transaction {
+				return muxdrv.TxWithdraw(n, f, s.vaultAddr, 100)
+			})
+		},
+		func() built {
+			return mk("vault/authorize-twice", acc[6].Key, func(n uint64, f *transaction.Fee) *transaction.Transaction {
+				f.Gas = 4 * muxdrv.DefaultGas
+				return vault.NewAuthorizeActionTx(n, f, &vault.AuthorizeAction{Vault: s.vault2Addr, Nonce: 0, Action: vault.Action{Suspend: &vault.ActionSuspend{}}})
+			})
+		},
+		func() built {
+			return mk("vault/authorize-different-action-same-nonce", acc[7].Key, func(n uint64, f *transaction.Fee) *transaction.Transaction {
+				f.Gas = 4 * muxdrv.DefaultGas
+				return vault.NewAuthorizeActionTx(n, f, &vault.AuthorizeAction{Vault: s.vault2Addr, Nonce: 0, Action: vault.Action{Resume: &vault.ActionResume{}}})
+			})
+		},
+		func() built {
+			return mk("vault/cancel-by-stranger", acc[8].Key, func(n uint64, f *transaction.Fee) *transaction.Transaction {
+				return vault.NewCancelActionTx(n, f, &vault.CancelAction{Vault: s.vault2Addr, Nonce: 0})
+			})
+		},
+		func() built {
+			return mk("vault/suspend-by-non-suspend-authority", acc[8].Key, func(n uint64, f *transaction.Fee) *transaction.Transaction {
+				f.Gas = 4 * muxdrv.DefaultGas
+				return vault.NewAuthorizeActionTx(n, f, &vault.AuthorizeAction{Vault: s.vaultAddr, Nonce: 1, Action: vault.Action{Suspend: &vault.ActionSuspend{}}})
 			})
 		},
 		func() built {
